@@ -1,6 +1,8 @@
 HOOK_COMMITS = ["d5fe92d", "HEAD~0 (see git log --grep='verif hooks' in /repo)"]
 
 ENGINES = [
+    {"name": "worldx2", "path": "harness/worldx2", "serves_properties": ["C12", "C11"], "kind_free_text": "directory-tree shape x edit explorer and discovered-dependency history explorer on top of worldx"},
+    {"name": "worldx3", "path": "harness/worldx3", "serves_properties": ["C18"], "kind_free_text": "Ninja manifest family x edit-history explorer through `llbuild ninja build` on top of worldx"},
     {"name": "stalex", "path": "harness/stalex", "serves_properties": ["C14"], "kind_free_text": "in-process stale-file-removal runner with recording file system, exhaustive list/roots triples"},
     {"name": "procx", "path": "harness/procx", "serves_properties": ["C16"], "kind_free_text": "enumeration of child-process behaviours through the real execution queues"},
     {"name": "tsanx", "path": "harness/tsanx", "serves_properties": ["C05", "C06", "C16"], "kind_free_text": "schedx thread bodies free-running under ThreadSanitizer (sampling; supplementary to schedx for the data-race clause)"},
@@ -106,7 +108,22 @@ TEXT.update({
             "text": "All path strings up to length 4 (6 thorough) over {a,' ','#','$','\\',':','/','.'} and pairs of them, rendered with the documented escaping into "
                     "single-rule, two-rule, continuation and CRLF layouts, must be recovered byte for byte by MakefileDepsParser; all dependency-info files with up to 2 (3) "
                     "records over a hostile operand alphabet likewise; every truncation and structural fault must be reported through the error callback.",
-            "note": "Codec part only so far: the history part (a later change of a discovered path re-executes the command) is being added with worldx."},
+            "note": "History part (worldx2): 48 path classes (spaces, '#', '$', backslash, colon, leading/trailing/doubled, sub-directory, absolute, relative under a working-directory) x "
+                    "{makefile, dependency-info} x P initially present/missing x every history of <=2 (3) steps of {modify, delete, create P, touch nothing} through the real tool: the command re-executes iff P changed; malformed dependency files fail the build."},
+    "C12": {"design_ref": "DESIGN.md §5 C12",
+            "technique": "bounded-exhaustive exploration of directory-tree shapes x edits through the real llbuild tool against a reference listing model",
+            "text": "All 145 (1513 thorough) trees of depth <=2 and fan-out <=2 over {file, dir, symlink} with names {a, b, k.x}: the null control and every single edit (add, remove, rename, "
+                    "retype, content change of same/different size, mtime-only, chmod, symlink retarget) at every position, all pairs of edits on the small shapes, chained "
+                    "build-edit-build-edit-build histories, for a directory-tree and a directory-structure input, without filter, with `*.x` and with an exact-name exclusion: the consuming command "
+                    "re-executes iff the filter-visible listing (tree) resp. names/types (structure) changed; excluded names are invisible both ways; nothing changed => nothing runs.",
+            "note": "Compound edits that restore the structure, chmod and a directory's own mtime are enumerated but not asserted (statement silent)."},
+    "C18": {"design_ref": "DESIGN.md §5 C18",
+            "technique": "bounded-exhaustive exploration of edit histories through `llbuild ninja build` (new process per build) against a reference evaluator cross-checked with clean builds",
+            "text": "10 (23) Ninja manifest families with 3-7 variants each (explicit/implicit/order-only inputs, multiple outputs, phony, depfile, restat, generator, pool): every history up to "
+                    "3 (4; 5 for two families) events of {rewrite/touch a source, delete an output, switch manifest variant, build}, with --jobs 1 and 4, with and without database, plus a failure "
+                    "phase (fail-before/after of each command, repair, rebuild, null build; -k 1 and -k 0): contents equal the clean build, an immediate rebuild runs nothing, order-only inputs "
+                    "never trigger, implicit/depfile inputs and command changes do, a failing command stops dependents and is retried.",
+            "note": "Equal mtimes (the < vs <= boundary) cannot occur under the logical clock; in --no-db mode only contents, ordering and failure semantics are asserted."},
     "C13": {"design_ref": "DESIGN.md §5 C13",
             "technique": "exhaustive enumeration of all ordered pairs of file states x 3 file-system modes x 2 observers on real files",
             "text": "63 (127 thorough) file states (missing, contents of several sizes incl. multi-buffer, two mtimes, inode kept/replaced, directory, symlink, dangling "
@@ -149,13 +166,4 @@ TEXT.update({
 })
 
 NOT_APPLICABLE = {
-    "C11": "check under construction (deps codec enumerator + worldx histories); not yet registered",
-    "C12": "check under construction (worldx directory-tree enumerator); not yet registered",
-    "C13": "check under construction (file-state pair enumerator enumx); not yet registered",
-    "C14": "check under construction (prefix predicate enumerator + in-process stale-file-removal runner); not yet registered",
-    "C15": "check under construction (key/value codec enumerator); not yet registered",
-    "C16": "check under construction (preemption-bounded scheduler schedx + subprocess behaviours procx); not yet registered",
-    "C17": "check under construction (differential enumerator against /usr/bin/ninja); not yet registered",
-    "C18": "check under construction (worldx, Ninja rendering); not yet registered",
-    "C19": "check under construction (bounded-exhaustive parser inputs under ASan); not yet registered",
 }
